@@ -209,6 +209,7 @@ void SLUFactor<R>::solve2right4update(
       x.unSetup();
       y.setSize(rsize);
       y.unSetup();
+      y.setup();
       eta.setup_and_assign(x);
    }
    else
@@ -347,8 +348,10 @@ void SLUFactor<R>::solve3right4update(
       x.unSetup();
       y.setSize(rsize);
       y.unSetup();
+      y.setup();
       y2.setSize(rsize2);
       y2.unSetup();
+      y2.setup();
       eta.setup_and_assign(x);
    }
    else
